@@ -46,6 +46,16 @@ CHECKS = {
         technique="TLA+ model of the probe/retry loop (Supervisor.tla) checked by TLC against the contract for every scenario of node answers, termination under WF; every canonical scenario (SupervisorCases.tla) replayed into the real supervisor through an injected connection factory",
         text="TLC checks all 19 683 assignments of {master, slave, error} to 3 nodes x 3 rounds against the contract (chosen node reported master in the first round that had one, every other node listed exactly once, error exactly when none) plus termination; the 1 899 canonical scenarios are all replayed against the real GetSlotState with real INFO text, connect errors, command errors and role-less output and real back-off.",
         note="Injected factory (build tag verif); retry budget 2 for the product, production budget 6 only on no-master scenarios in the thorough tier; 3 nodes."),
+    "C03": dict(
+        level="model_checking", design="DESIGN.md 4/C03",
+        technique="TLA+ model of parser / sender (barrier automaton, thresholds, ticker) / target (IncrSync.tla) model-checked by TLC per configuration family; TLC-simulated behaviours replayed lock-step into the real parseSourceCommand/sendTargetCommand through gate hooks and a substituted ticker, the model Redis gated per command; per-step snapshots of the real target validated by TLC against the contract (IncrTrace.tla)",
+        text="TLC proves in-order/exactly-once/right-db forwarding, absence of source MULTI/EXEC on the target and completeness for every interleaving of emission, parsing, dequeuing, ticker and target processing (6 configuration families: key/db/lua/command filters, target.db, batch sizes 1-3); the code is bound by lock-step replay of simulated behaviours with the contract evaluated by TLC on the real target state after every step, plus free runs with the real 500 ms ticker (an idle stream must be flushed within two periods).",
+        note="mredis stands in for the target; sender size threshold not varied; streams up to 6-7 commands over 2 databases."),
+    "C04": dict(
+        level="fault_enumeration", design="DESIGN.md 4/C04",
+        technique="same TLA+ model with resume on and a Crash action at every state (cut inside/outside MULTI, restart from the newest checkpoint) model-checked by TLC; simulated behaviours with cuts replayed lock-step: the real LoadCheckpoint reads what the real sender stored and a new parser/sender resumes; every per-step snapshot (= every cut point reached) validated by TLC against CkptAtomic and the resume contract",
+        text="TLC proves that in every reachable state the dataset equals the source history up to the newest stored offset, that a run id is stored with every offset and that restart + completion loses and repeats nothing, for every cut position (1-2 cuts); replayed behaviours exercise the same cuts on the real code (target connections killed at a command boundary while commands wait in the target's gate), with the real loader and a real restart, and TLC judges the real target state after every step.",
+        note="Static offset base (the live acknowledgement path is C08); cuts are at command boundaries of the target's input; mredis stands in for the target."),
 }
 
 NOT_YET = "check not built yet in this session (work in progress; see DESIGN.md section 7 for the order)"
